@@ -239,7 +239,7 @@ def _evaluate(ctx, scs, res):
 
 def run(ctx, res):
     from harness.c01 import unlisted_failure
-    n = 400 if (ctx.deep and not unlisted_failure(ctx, res)) else 60
+    n = 60 if unlisted_failure(ctx, res) else (1500 if ctx.tier == 'thorough' else 200 if ctx.deep else 60)
     _evaluate(ctx, scenarios(ctx.rng, n), res)
 
 
